@@ -40,7 +40,8 @@ def arm(ctx, rep, rule):
         rep.check(rule, key + "|nonblocking-true", t == ("const", True), "set_nonblocking(true)", "set_nonblocking(%s)" % flow.fmt(t), body.loc(b.term["line"]))
     # recv_socket maps WouldBlock
     rs = facts.need("socket::snmpsocket::SnmpSocket::recv_socket")
-    agg = [vn for (bi, st, f, vn) in flow.aggregate_inits(rs, "error::SnmpError")]
+    # the mapping may live in a closure handed to map_err
+    agg = [vn for b_ in [rs] + facts.closures_of(rs.path) for (bi, st, f, vn) in flow.aggregate_inits(b_, "error::SnmpError")]
     rep.check(rule, "SnmpSocket::recv_socket|WouldBlock", "WouldBlock" in agg, "io::ErrorKind::WouldBlock -> SnmpError::WouldBlock",
               "recv_socket no longer reports WouldBlock", rs.loc(), obligation=True)
     # the three constructors hand their timeout_ns to get_socket
